@@ -21,9 +21,126 @@ def check(chk):
     r182_merge(chk, m)
     r182_groups(chk, m)
     r182_columns(chk, m)
+    r184(chk, m)
+    r185(chk, m)
     r183(chk, m)
     chk.decline('order for arbitrary key multisets and balance of the column split (runtime); collation itself is delegated to '
                 'pyuca / str.lower')
+
+
+def index_scene():
+    """A printindex object: two groups; entries with and without pages of their own, with and without sub-entries, three levels."""
+    from ..tplinterp import Data
+    n = [0]
+    expected = []
+
+    def page(owner):
+        n[0] += 1
+        return Data('page%d(%s)' % (n[0], owner), kind='page', url='url%d' % n[0], currentSection=Data('section%d' % n[0], title='Section %d' % n[0]))
+
+    def item(label, npages, subs=()):
+        it = Data(label, children=list(subs), kind='key')
+        it.attrs['key'] = Data('key:' + label, kind='key')
+        it.attrs['pages'] = [page(label) for _ in range(npages)]
+        it.attrs['sortkey'] = label
+        return it
+    # the pages are created in pre-order so that the expected sequence is simply the pre-order walk
+    def build(spec, prefix=''):
+        label, npages, subs = spec
+        me = item(prefix + label, npages)
+        expected.append(me.attrs['key'])
+        expected.extend(me.attrs['pages'])
+        me.children = [build(x, prefix + label + '!') for x in subs]
+        return me
+    g1 = [[build(('alpha', 2, [('one', 1, [('deep', 2, [])]), ('two', 0, [('deeper', 1, [])])])), build(('beta', 1, []))],
+          [build(('gamma', 0, [('sub', 3, [])]))]]
+    g2 = [[build(('delta', 1, [('x', 1, []), ('y', 2, [])]))]]
+    groups = []
+    for k, g in enumerate((g1, g2)):
+        cols = [Data('column%d.%d' % (k, j), children=c) for j, c in enumerate(g)]
+        groups.append(Data('group%d' % k, children=cols, id='g%d' % k, title=Data('title%d' % k, kind='title')))
+    obj = Data('printindex', children=[e for g in (g1, g2) for c in g for e in c], id='idx', title='Index', groups=groups)
+    return obj, expected
+
+
+def r184(chk, m):
+    """The templates that lay out the index (only those that list the entries themselves) on a scripted index node."""
+    import os
+    from .. import templates as T
+    from .. import tplinterp as TI
+    R = chk.rule('R18.4', 'the index templates interpreted on a scripted printindex node (entries with and without page references '
+                 'of their own, with and without sub-entries, three levels, two groups, several columns): the keys and page '
+                 'references written to the output are exactly the pre-order walk of the tree - every key once, under its '
+                 'parent, each followed by its own page references in order', 2)
+    obj, expected = index_scene()
+    want = [x.label for x in expected]
+    n = 0
+    for sub in sorted(os.listdir(os.path.join(chk.model.root, 'plasTeX', 'Renderers'))):
+        if not os.path.isdir(os.path.join(chk.model.root, 'plasTeX', 'Renderers', sub)):
+            continue
+        for path in T.template_files(chk.model.root, sub):
+            if not re.search(r'\.(jinja2s?|zpts?)$', path):
+                continue
+            for tpl in T.split_templates(path):
+                if not ({'theindex', 'printindex'} & set(tpl.names)) or not tpl.body.strip():
+                    continue
+                key = '%s/%s' % (sub, tpl.key)
+                where = '%s:%d' % (os.path.relpath(path, chk.model.root), tpl.line)
+                try:
+                    if '.jinja2' in path:
+                        ev = TI.run_jinja(tpl.body, {'obj': obj, 'here': obj})
+                    else:
+                        ev = TI.run_tal(tpl.body, {'self': obj, 'here': obj, 'obj': obj},
+                                        prefixes={'stripped': lambda it, v: v})
+                except TI.Undecided as e:
+                    chk.undecided(R, key, 'template construct outside the interpreter: %s' % e, where)
+                    continue
+                got = [e[1].label for e in ev if e[0] == 'value' and isinstance(e[1], TI.Data) and e[1].kind in ('key', 'page')]
+                if not got:
+                    continue            # a template that leaves the listing to the output format's own tool chain
+                n += 1
+                chk.analysed(path)
+                chk.files.add(os.path.relpath(path, chk.model.root))
+                chk.verdict(R, key, got == want,
+                            'the index written by the template differs from the tree: first difference at position %d (%s instead of %s); written %d of %d'
+                            % (next((i for i, (a, b) in enumerate(zip(got + [None], want + [None])) if a != b), min(len(got), len(want))),
+                               (got + ['nothing'] * len(want))[next((i for i, (a, b) in enumerate(zip(got + [None], want + [None])) if a != b), 0)],
+                               (want + ['nothing'] * len(got))[next((i for i, (a, b) in enumerate(zip(got + [None], want + [None])) if a != b), 0)],
+                               len(got), len(want)), where)
+
+
+def r185(chk, m):
+    """The text a key is sorted by: text content of a key that contains macros with a `str` of their own."""
+    from . import domheap as D
+    R = chk.rule('R18.5', 'the text a key is sorted and merged by, on a DOM heap: the text content of a key containing a macro that has a '
+                 '`str` of its own (accent macros, symbol commands; directly in the key or inside a group) is the surrounding text '
+                 'with the macro\'s `str` in place - for every node class that computes its text content itself', 4)
+    Node = m.cls(D.DOM, 'Node')
+    getter = m.find_method(Node, 'textContent')
+    need(getter is not None, 'Node.textContent not found')
+    special = [c for c in m.all_classes if c is not Node and Node in m.mro(c) and 'textContent' in c.properties
+               and m.find_attr_class(c, 'str') is not None]
+    need(len(special) >= 2, 'the node classes with their own text content and `str` (accents, symbols) were not found')
+    chk.analysed(getter)
+    for c in sorted(special, key=lambda c: c.fullname) + [Node]:
+        for shape in ('direct', 'in a group'):
+            dom = D.Dom(m)
+            mac = dom.elem('macro', [dom.text('base', 'o')])
+            mac.cls = c
+            mac.attrs['str'] = '\u00f6'
+            inner = mac if shape == 'direct' else dom.elem('group', [dom.text('g', 'b'), mac])
+            frag = dom.elem('key', [dom.text('t1', 'a'), inner, dom.text('t2', 'z')])
+            key = 'key text with a %s macro %s' % (c.fullname, shape)
+            try:
+                outs = D.run(m, getter, {'self': frag}, cls=Node)
+            except D.Imprecise as e:
+                chk.undecided(R, key, str(e), chk.where(getter))
+                continue
+            got = {str(v) if isinstance(v, str) else repr(v) for kind, st, v in outs if kind == 'return'} | \
+                  {'raises' for kind, st, v in outs if kind == 'raise'}
+            want = {'a\u00f6z' if shape == 'direct' else 'ab\u00f6z'}
+            chk.decide(R, key, got, want, 'the text of the key is %s instead of %s: the macro contributes its base letter, the entry is '
+                       'sorted and merged under another key' % (sorted(got), sorted(want)), chk.where(getter))
 
 
 def r181(chk, m):
